@@ -63,6 +63,8 @@ def source_facts():
 
     exp = body("read_key_value_with_expiry")
     typ = body("read_key_value_with_type")
+    if typ is not None and body("read_record") is not None:
+        typ += "\n" + body("read_record")          # since 100ec1e the record is read by read_record, wrapped by read_key_value_with_type
     if exp is None or typ is None:
         raise InternalError("rdb.rs: read_key_value_with_expiry / read_key_value_with_type not found")
     wkv = body("write_key_value")
@@ -75,7 +77,7 @@ def source_facts():
     esc_names = [esc_lit] + [r"\b" + n + r"\b" for n in re.findall(r"\b(?:const|static)\s+(\w+)\s*:[^=;]*=\s*" + esc_lit, rdb_nc)]
     esc_re = "|".join(esc_names)
     helpers = [n for n in re.findall(r"\bfn\s+(\w+)\b", rdb_nc)
-               if n not in ("write_key_value", "read_key_value_with_type", "generate_rdb_bytes") and re.search(esc_re, body(n) or "")]
+               if n not in ("write_key_value", "read_key_value_with_type", "read_record", "generate_rdb_bytes") and re.search(esc_re, body(n) or "")]
 
     def mentions_escape(b):
         return bool(b) and bool(re.search(esc_re, b) or any(re.search(r"\b" + h + r"\s*\(", b) for h in helpers))
@@ -599,6 +601,38 @@ class C09:
         return ("err", int(w[2]), int(w[3]), w[1])
 
     # -- one save/restart case ------------------------------------------------
+    def resave_case(self, r, cycles):
+        rep = self.rep
+        ds = [(0, [{"key": b"ttl-%02d" % i, "dl": 500000 + 997 * i, "ty": "SLTHZX"[i % 6], "val": gen_value(r, "SLTHZX"[i % 6], n=2)} for i in range(24)])]
+        self.iask("populate " + tokens(ds))
+        w = self.iask("save").split(" ")
+        if w[0] != "ok":
+            raise InternalError("resave: real save failed: " + " ".join(w)[:100])
+        f = unhx(w[3])
+        first = prev = {k: v[0] for k, v in canon(self.lean_dec(0, f)[3]).items()}
+        moved_total = {}
+        for cyc in range(cycles):
+            w = self.iask("load " + hx(f)).split(" ")
+            if w[0] != "ok":
+                raise InternalError("resave: the loader refuses the file the writer wrote")
+            w = self.iask("save").split(" ")
+            f = unhx(w[3])
+            cur = {k: v[0] for k, v in canon(self.lean_dec(0, f)[3]).items()}
+            rep.evaluations += 1
+            for k in prev:
+                if cur.get(k) != prev[k]:
+                    moved_total[k] = (cur.get(k) or 0) - prev[k]
+            prev = cur
+        drift = {k: prev[k] - first[k] for k in first if prev.get(k) is not None and prev[k] != first[k]}
+        rep.count("resave.cycles=%d.keys-whose-stamp-moved=%s" % (cycles, "0" if not drift else "1-2" if len(drift) <= 2 else "3+"))
+        rep.nontrivial(("resave", len(drift) > 0))
+        if len(drift) * 2 >= len(first):
+            ex = sorted(drift.items())[:3]
+            self.resave_failure = ("C09 restart oracle fails: after %d load + save cycles the deadline stamps in the dump moved for %d of %d keys (e.g. %s): a deadline must be written "
+                                   "back as the millisecond it was loaded as, or it drifts with every SAVE + restart" % (
+                                       cycles, len(drift), len(first), ", ".join("%s by %+d ms" % (k[1].decode(), d) for k, d in ex)),
+                                   {"replay": {"kind": "resave", "dataset": tokens(ds), "cycles": cycles, "moved_ms": {hx(k[1]): d for k, d in sorted(drift.items())}}, "family": FAMILY})
+
     def run_case(self, case, record=True):
         """case = {"name", "ds", "pre": ms before SAVE, "down": ms between SAVE and load, "lean": decode through the model?, "bytes": byte comparison?}
         returns (oracle diffs not explained by a known finding, all oracle diffs)"""
@@ -1247,6 +1281,11 @@ class C09:
                 {"key": b"bigl", "dl": 601000, "ty": "L", "val": [b"e%07d" % i for i in range(nbig)]},
                 {"key": b"small", "dl": 600000, "ty": "S", "val": b"v"}]
         self.run_case({"name": "big-value-with-ttl", "kind": "bigvalue", "lean": False, "bytes": False, "spec_py_only": True, "ds": [(vr.below(16), bigv)]})
+        # a dump that is loaded and saved again, several times: every deadline in the file must come back as the SAME unix
+        # millisecond (a conversion that always rounds one way moves every deadline by a millisecond per SAVE + restart cycle;
+        # hunt C09/d4, repaired by 009601a).  One key may move when the thread is preempted between the two clock readings of a
+        # conversion; a drift is what moves most keys, all the same way.
+        self.resave_case(r.fork("resave"), 3 if tier == "quick" else 10)
         if tier == "thorough":
             # a first database that takes the loader long to read, keys with a TTL after it (later in db 0's file order is not controllable,
             # later databases are): every deadline must come back to clock granularity however long the load has been going on
@@ -1437,7 +1476,9 @@ def main(tier, seed):
                                             "the two writers of the same format differ" % (facts["listEscapeWrite"], facts["listEscapeRepl"])})
         if facts["marker_sites"] < 2:
             c.disagreements.append({"what": "stream marker literal %r not found at both the writer and the loader site of rdb.rs" % MARKER.decode()})
-        if c.oracle_failures:
+        if getattr(c, "resave_failure", None) and not c.oracle_failures:
+            rep.violation(*c.resave_failure)
+        elif c.oracle_failures:
             name, dfx, case, info = min(c.oracle_failures, key=lambda x: len(x[2].get("history", ())) * 40 + sum(len(es) for _, es in x[2]["ds"]))
             kind = case.get("kind", "")
             if kind == "tcp-history":
